@@ -50,6 +50,10 @@ func (o ceditOp) String() string {
 		return fmt.Sprintf("AddReplace(%s,%q,%s,%q)", o.S[0], o.S[1], o.S[2], o.S[3])
 	case "DropReplace":
 		return fmt.Sprintf("DropReplace(%s,%q)", o.S[0], o.S[1])
+	case "RefusedAddExclude", "RefusedAddRetract":
+		return fmt.Sprintf("%s(%q,%q)", o.Kind, o.S[0], o.S[1])
+	case "RefusedAddGoStmt", "RefusedAddToolchainStmt":
+		return fmt.Sprintf("%s(%q)", o.Kind, o.S[0])
 	}
 	var a []string
 	for _, s := range o.S {
@@ -78,6 +82,8 @@ var ceditModKinds = []string{
 	"AddGodebug", "AddGodebug", "DropGodebug",
 	"AddGoStmt", "DropGoStmt", "AddToolchainStmt", "DropToolchainStmt", "AddModuleStmt",
 	"Cleanup",
+	// operations the library refuses (see ceditRefused): the call must leave nothing behind
+	"RefusedAddExclude", "RefusedAddRetract", "RefusedAddGoStmt", "RefusedAddToolchainStmt",
 }
 
 var ceditWorkKinds = []string{
@@ -86,7 +92,19 @@ var ceditWorkKinds = []string{
 	"AddReplace", "AddReplace", "AddReplace", "DropReplace", "DropReplace",
 	"AddGoStmt", "DropGoStmt", "AddToolchainStmt", "DropToolchainStmt",
 	"Cleanup",
+	"RefusedAddGoStmt", "RefusedAddToolchainStmt",
 }
+
+// Arguments the edit operations document (or are written) to refuse. A refused
+// call is part of "any sequence of edit operations": the session goes on, the
+// model does not change, and what the structure and the formatted file hold
+// afterwards is compared as usual. Were such a call accepted, the formatted
+// file would not parse strictly.
+var (
+	ceditBadVers       = []string{"v1.2", "v1", "1.2.3", "v1.0.0+meta", "", "v01.2.3", "v1.2.3.4", "latest"}
+	ceditBadGoVersions = []string{"1.21.x", "go1.21", "1.21.", "v1.21", "1.021", "", "1", "1.21-rc1"}
+	ceditBadToolchains = []string{"1.21.0", "go2", "go12", "local", "", "Go1.21", "go"}
+)
 
 // ceditReqList draws a requested requirement list with distinct paths.
 func ceditReqList(r *rand.Rand, max int) []refmodfile.Req {
@@ -172,6 +190,34 @@ func ceditGenOpKind(r *rand.Rand, kind string) ceditOp {
 		op.S = [4]string{gen.Pick(r, gen.EditUseDirs)}
 	case "SetUse":
 		op.Dirs = ceditUseList(r, 4)
+	case "RefusedAddExclude":
+		switch r.IntN(3) {
+		case 0: // the version belongs to another major version than the path
+			q := gen.Pick(r, []string{"a.com/x", "c.com/z/v2"})
+			op.S = [4]string{q, map[string]string{"a.com/x": "v2.0.0", "c.com/z/v2": "v1.2.3"}[q]}
+		case 1: // a version of the file, not quite
+			op.S = [4]string{p, strings.TrimSuffix(v, ".0") + "+meta"}
+			if strings.Contains(v, "+") {
+				op.S[1] = "v1.0"
+			}
+		default:
+			op.S = [4]string{p, gen.Pick(r, ceditBadVers)}
+		}
+	case "RefusedAddRetract":
+		vi := gen.Pick(r, gen.EditRetracts)
+		bad := gen.Pick(r, ceditBadVers)
+		switch r.IntN(3) {
+		case 0:
+			op.S = [4]string{bad, vi[1], "why"}
+		case 1:
+			op.S = [4]string{vi[0], bad, "why"}
+		default:
+			op.S = [4]string{bad, bad, ""}
+		}
+	case "RefusedAddGoStmt":
+		op.S = [4]string{gen.Pick(r, ceditBadGoVersions)}
+	case "RefusedAddToolchainStmt":
+		op.S = [4]string{gen.Pick(r, ceditBadToolchains)}
 	}
 	return op
 }
@@ -385,6 +431,18 @@ func ceditApplyMod(f *modfile.File, m *refmodfile.File, op ceditOp) (effect stri
 	case "Cleanup":
 		f.Cleanup()
 		effect = "cleanup"
+	case "RefusedAddExclude":
+		err = ceditRefused(f.AddExclude(s[0], s[1]))
+		effect = "refused"
+	case "RefusedAddRetract":
+		err = ceditRefused(f.AddRetract(modfile.VersionInterval{Low: s[0], High: s[1]}, s[2]))
+		effect = "refused"
+	case "RefusedAddGoStmt":
+		err = ceditRefused(f.AddGoStmt(s[0]))
+		effect = "refused"
+	case "RefusedAddToolchainStmt":
+		err = ceditRefused(f.AddToolchainStmt(s[0]))
+		effect = "refused"
 	default:
 		panic("cedit: unknown go.mod operation " + op.Kind)
 	}
@@ -436,10 +494,25 @@ func ceditApplyWork(f *modfile.WorkFile, m *refmodfile.File, op ceditOp) (effect
 	case "Cleanup":
 		f.Cleanup()
 		effect = "cleanup"
+	case "RefusedAddGoStmt":
+		err = ceditRefused(f.AddGoStmt(s[0]))
+		effect = "refused"
+	case "RefusedAddToolchainStmt":
+		err = ceditRefused(f.AddToolchainStmt(s[0]))
+		effect = "refused"
 	default:
 		panic("cedit: unknown go.work operation " + op.Kind)
 	}
 	return
+}
+
+// ceditRefused turns the outcome of a call that must be refused around: the
+// refusal is what is expected, an acceptance is reported.
+func ceditRefused(err error) error {
+	if err == nil {
+		return fmt.Errorf("accepted an argument the formatted file cannot carry")
+	}
+	return nil
 }
 
 // ceditExec parses the starting file, runs the session on the real structure
